@@ -568,6 +568,7 @@ def confirm(ctx, cands):
         rt = v["retrace"]
         out2 = os.path.join(ctx.scratch, "retrace.%d.ndjson" % n)
         cmd2 = list(rt["cmd"])
+        cmd2[0] = ctx.jmv            # (a replay file carries the path of the harness of the run that wrote it)
         cmd2[cmd2.index("-out") + 1] = out2
         cmd2[cmd2.index("-meta") + 1] = out2 + ".meta"
         p = subprocess.run(cmd2, capture_output=True, text=True, timeout=1800)
@@ -684,7 +685,7 @@ def report(ctx, confirmed):
         with open(path, "w") as f:
             json.dump({"property": ctx.prop, "violation": {k: x for k, x in v.items() if k != "batch"}, "tier": ctx.tier, "seed": ctx.seed,
                        "batch": ({"files": [os.path.basename(x) for x in v["batch"]["files"]], "note": "re-run the check to regenerate the batch"}
-                                 if v.get("needs_history") else None)}, f, indent=1)
+                                 if v.get("needs_history") and v.get("batch") else None)}, f, indent=1)
         if v.get("tool"):
             v = dict(v, rec="(see replay file)", pools="(see replay file)")
         what = "%s expr=%r observed=%s" % (v.get("cat"), v.get("src"), (v.get("observed") or "")[:160])
